@@ -276,6 +276,18 @@ def shard(arg) -> E.Tally:
             hist = GC.retime([(lines[0][0], lines[j][1], lines[j][2])] + lines[:j] + lines[j + 1 :])
             run_history(t, hist, eav, {min(len(hist) - 1, j + 1), len(hist) - 1}, {"log": rel, "eav": eav, "edit": f"first@{j}"}, f"{rel}[first@{j}]")
             t.by["heard_first"] += 1
+    elif kind == "unassign":
+        # what the controller / UFH controller said about a role is later withdrawn ('nobody has this role'): the newer statement takes
+        # the older one's place in the store, so whatever the source gateway still derives from the older one is not in the snapshot
+        for j in range(n):
+            d, r, fr = lines[j]
+            ff = fr.split()
+            if j % nsh != i or fr[:2] != "RP" or ff[-3] != "000C" or len(ff[-1]) != 12 or ff[-1][4:6] == "7F":
+                continue
+            empty = f"{fr[: fr.rfind(' ')]} {ff[-1][:4]}7FFFFFFF"
+            hist = GC.retime(lines[: j + 1] + GC.restamp([(d, r, empty)], lines, j + 1) + lines[j + 1 :])
+            run_history(t, hist, eav, {min(len(hist) - 1, j + 2), len(hist) - 1}, {"log": rel, "eav": eav, "edit": f"unassign@{j}"}, f"{rel}[unassign@{j}]")
+            t.by["unassigned"] += 1
     elif kind == "late":
         # one packet overtaken: it is delivered after the one stamped after it, each keeping its own timestamp (timestamps given by
         # a remote MQTT gateway, or a curated log: arrival order is not timestamp order)
@@ -339,6 +351,8 @@ def plan(quick: bool):
             for eav in (False, True):
                 for i in range(nsh):
                     jobs.append(("late", rel, eav, i, nsh, quick))
+                    if any(" 000C " in ln[2] for ln in GC.log(rel)):
+                        jobs.append(("unassign", rel, eav, i, nsh, quick))
                     if n <= (120 if quick else 300):
                         jobs.append(("first", rel, eav, i, nsh, quick))
     return jobs
@@ -373,6 +387,12 @@ def replay(rep: dict):
         j = int(rep["edit"][6:])
         hist = GC.retime([(lines[0][0], lines[j][1], lines[j][2])] + lines[:j] + lines[j + 1 :])
         run_history(t, hist, rep["eav"], {min(len(hist) - 1, j + 1), len(hist) - 1}, rep, f"{rep['log']}[first@{j}]")
+    elif rep["edit"].startswith("unassign@"):
+        j = int(rep["edit"][9:])
+        d, r, fr = lines[j]
+        empty = f"{fr[: fr.rfind(' ')]} {fr.split()[-1][:4]}7FFFFFFF"
+        hist = GC.retime(lines[: j + 1] + GC.restamp([(d, r, empty)], lines, j + 1) + lines[j + 1 :])
+        run_history(t, hist, rep["eav"], {min(len(hist) - 1, j + 2), len(hist) - 1}, rep, f"{rep['log']}[unassign@{j}]")
     elif rep["edit"].startswith("late@"):
         j, k = (int(x) for x in rep["edit"][5:].split(">"))
         hist = lines[:j] + lines[j + 1 : k + 1] + [lines[j]] + lines[k + 1 :]
